@@ -28,6 +28,10 @@ def gen(rng, tier):
         for mk in mems:
             for alg in (1, 2):
                 add(alg, 32, t, 1024 * mk + (mk % 3) * 300, rbytes(rng, 8), rbytes(rng, 16), "grid/t=%d" % t)
+    # pass counts across the 8-bit / 16-bit boundaries (a narrowed pass counter wraps there), small memory
+    for t in [255, 256, 257, 258, 300, 513] + ([] if tier == "quick" else [65535, 65536, 65537]):
+        for alg in (1, 2):
+            add(alg, 32, t, 1024 * (8 + t % 5), rbytes(rng, 6), rbytes(rng, 16), "passes/t>=255")
     # salts of 8..=64 bytes (Lean RFC spec only)
     for sl in range(8, 65, 3 if tier == "quick" else 1):
         add(2, 32, 1, 8192, rbytes(rng, 5), rbytes(rng, sl), "saltlen")
